@@ -14,10 +14,17 @@ def install(w):
             name="ref:NameNode", kind="str", loc="opaque")
     w.shape("ObjectFieldNode", name="ref:NameNode", value="ref:ValueNode", kind="str", loc="opaque")
 
+    # the scope of a variable is decided by `sources` (a fragment variable that is declared shadows
+    # the operation variable of the same name even when it has no value), the value comes from
+    # `coerced` of that scope: the same rule as get_scoped_variable_values on the validation side
     w.contract(f"{CV}.get_coerced_variable_value",
-               params={"variable_node": "ref:ValueNode", "variable_values": "opaque",
-                       "fragment_variable_values": "opaque"}, returns="dyn", ensures=[],
-               assumed=True)
+               params={"variable_node": "ref:ValueNode", "variable_values": "opt:ref:VariableValues",
+                       "fragment_variable_values": "opt:ref:FragmentVariableValues"}, returns="dyn",
+               # (the converse needs "no stored value is Undefined", an invariant of the variable
+               # coercion that is not in reach here)
+               ensures=["implies(not var_has_value(variable_node, variable_values, fragment_variable_values),"
+                        " is_undefined(result))"],
+               raises=[], modifies=[], props={"C15", "C13", "C02"})
     w.contract(f"{CV}._is_missing_variable",
                params={"variable_node": "ref:ValueNode", "variable_values": "opaque",
                        "fragment_variable_values": "opaque"}, returns="bool", ensures=[],
